@@ -1091,7 +1091,7 @@ impl Template {
     fn build_eq_expr(&self, this: TokenStream, other: TokenStream) -> TokenStream {
         let this = self.apply(this);
         let other = self.apply(other);
-        quote_spanned!(self.span()=> ::core::cmp::PartialEq::eq(&(#this), &(#other)))
+        quote_spanned!(self.span().resolved_at(Span::call_site())=> ::core::cmp::PartialEq::eq(&(#this), &(#other)))
     }
 
     fn build_eq_checker(&self, this: TokenStream) -> TokenStream {
@@ -1101,18 +1101,18 @@ impl Template {
     fn build_partial_cmp_expr(&self, this: TokenStream, other: TokenStream) -> TokenStream {
         let this = self.apply(this);
         let other = self.apply(other);
-        quote_spanned!(self.span()=> ::core::cmp::PartialOrd::partial_cmp(&(#this), &(#other)))
+        quote_spanned!(self.span().resolved_at(Span::call_site())=> ::core::cmp::PartialOrd::partial_cmp(&(#this), &(#other)))
     }
 
     fn build_cmp_expr(&self, this: TokenStream, other: TokenStream) -> TokenStream {
         let this = self.apply(this);
         let other = self.apply(other);
-        quote_spanned!(self.span()=> ::core::cmp::Ord::cmp(&(#this), &(#other)))
+        quote_spanned!(self.span().resolved_at(Span::call_site())=> ::core::cmp::Ord::cmp(&(#this), &(#other)))
     }
 
     fn build_hash_stmt(&self, this: TokenStream) -> TokenStream {
         let this = self.apply(this);
-        quote_spanned!(this.span()=> ::core::hash::Hash::hash(&(#this), __state);)
+        quote_spanned!(this.span().resolved_at(Span::call_site())=> ::core::hash::Hash::hash(&(#this), __state);)
     }
 }
 fn build_to_index_fn(variants: &[VariantEntry]) -> TokenStream {
@@ -1132,7 +1132,7 @@ fn build_to_index_fn(variants: &[VariantEntry]) -> TokenStream {
 }
 
 fn build_eq_checker(this: TokenStream) -> TokenStream {
-    quote_spanned!(this.span()=>{
+    quote_spanned!(this.span().resolved_at(Span::call_site())=>{
         fn __derive_ex_eq<__T: ::core::cmp::Eq + ?::core::marker::Sized>(__this: &__T) { }
         __derive_ex_eq(&(#this))
     })
